@@ -54,7 +54,8 @@ Inductive sx :=
 | SEq (a b : sx) | SLt (a b : sx) | SLe (a b : sx) | SGt (a b : sx) | SGe (a b : sx) | SNe (a b : sx)
 | SAnd (a b : sx) | SOr (a b : sx) | SNot (a : sx)
 | SAdd (a b : sx)
-| SIsNull (a : sx).
+| SIsNull (a : sx)
+| SWide (a : sx).      (* an integer of any width at full width (a join key cast to the widest integer type) *)
 
 Definition cmp3 (f : comparison -> bool) (a b : dv) : dv :=
   match a, b with
@@ -65,6 +66,7 @@ Definition cmp3 (f : comparison -> bool) (a b : dv) : dv :=
       | _, _ => DBool (f (dv_cmp a b))
       end
   end.
+Definition wide (v : dv) : dv := match v with DI16 z | DI32 z | DI64 z => DI64 z | _ => v end.
 Definition widest (a b : dv) (z : Z) : dv :=
   match a, b with
   | DI64 _, _ | _, DI64 _ => DI64 z
@@ -100,6 +102,7 @@ Fixpoint sx_eval (e : sx) (r : row) : dv :=
       | _, _ => DNull
       end
   | SIsNull a => DBool (is_null (sx_eval a r))
+  | SWide a => wide (sx_eval a r)
   end.
 (** a condition holds for a row iff it evaluates to TRUE (NULL and FALSE do not pass) *)
 Definition holds (e : sx) (r : row) : bool := match sx_eval e r with DBool true => true | _ => false end.
